@@ -142,6 +142,20 @@ def _geom_post(rec):
         r_ = np.ravel(np.asarray(r_, float))
         c_ = np.broadcast_to(c_, r_.shape)
         return float(-0.5 * np.sum(np.log(2 * np.pi * c_)) - 0.5 * np.sum(r_ * r_ / c_))
+    if rec["kind"] == "post_pde":
+        # forward model behind the PDE interface: -u'' = x on a grid of n nodes, the solution is observed at the nodes
+        from cuqi.pde import SteadyStateLinearPDE
+        from cuqi.model import PDEModel
+        h_ = 1.0 / (n + 1)
+        grid = np.linspace(h_, 1 - h_, n)
+        K = (2 * np.eye(n) - np.eye(n, k=1) - np.eye(n, k=-1)) / h_ ** 2
+        Kinv = np.linalg.inv(K)
+        yp = rs.randn(n) * 0.1
+        pde = SteadyStateLinearPDE(lambda f: (K, f), grid_sol=grid, grid_obs=grid)
+        M = PDEModel(pde, range_geometry=Continuous1D(grid), domain_geometry=Continuous1D(grid))
+        x = Gaussian(np.zeros(n), cov, geometry=Continuous1D(grid), name="x")
+        lik = Gaussian(M(x), 0.05, name="y").to_likelihood(yp)
+        return Posterior(lik, x), (lambda v: lg(yp - Kinv @ np.asarray(v, float).reshape(-1), 0.05) + lg(v, cov))
     if rec["kind"] == "post_step":
         nf = 3 * n
         A = rs.randn(m, nf)
@@ -172,7 +186,7 @@ def ud_target(ctx, rec, with_grad=True):
     """UserDefinedDistribution whose callables are probes.  rec: {kind, dim, zseed}."""
     if rec["kind"] in ("post", "post_const"):
         return post_target(ctx, rec, with_grad)
-    if rec["kind"] in ("post_step", "post_mapped"):
+    if rec["kind"] in ("post_step", "post_mapped", "post_pde"):
         return geom_post_target(ctx, rec)
     logp, grad = ref_density(rec["kind"], rec["dim"], rec["zseed"])
     p_logd = Probe(ctx, "logd", logp)
@@ -315,7 +329,7 @@ def gen_exp_scenario(r, kind=None, dim_max=5):
     ip = [round(r.uniform(-1, 1), 3) for _ in range(dim)]
     if kind in ("MH", "CWMH", "ULA", "MALA", "NUTS"):
         t["kind"] = r.choice(DENSITY_KINDS + ["post", "post_const"] + (["boxed", "boxed"] if kind in ("MH", "CWMH", "MALA") else [])
-                             + (["post_step", "post_mapped"] if kind in ("MH", "CWMH") else []))
+                             + (["post_step", "post_mapped", "post_pde"] if kind in ("MH", "CWMH") else []))
         if t["kind"] == "boxed" and kind in ("MH", "CWMH") and r.random() < 0.4:
             ip = [round(v * 6, 3) for v in ip]            # possibly a start value of zero density (outside the support)
         if r.random() < 0.8:
